@@ -498,4 +498,10 @@ def check(ctx):
         r3_writers(ctx, f, rep)
         r4_routing(ctx, f, rep)
         r5_state_transfer(ctx, f, rep)
+        # "Down is final until the member is forgotten": forgetting is exact - only the RemoveDown timer of that very
+        # identity removes its Down record (C09-R5 / C08-R4 removal predicate, re-run here)
+        from . import c09 as _c09
+        rep.rule('C01-R6', 'a Down record is forgotten only by Members::remove_if_down, called only from the RemoveDown '
+                           'handler with the timer\'s identity, whose predicate is `id == given && state == Down`')
+        _c09.r5_forget(ctx, f, _c09._Rename(rep, 'C09-R5', 'C01-R6'))
     rep.cur_config = None
